@@ -8,7 +8,7 @@ Theorem C04_nodes : forall m d, dmrs_from_mrs m = COk d ->
   exists ids reps, ep_ids (m_rels m) = Some ids /\ representatives m = Some reps /\
     d_nodes d = map (node_of m ids) (eps m ids) /\
     map snd (eps m ids) = m_rels m /\
-    d_links d = flat_map fst (per_arg m ids reps) ++ mod_links ids reps.
+    d_links d = flat_map fst (per_arg m ids reps) ++ mod_links ids reps ++ extra_links m ids reps.
 Proof. exact dmrs_nodes_spec. Qed.
 Print Assumptions C04_nodes.
 
@@ -33,7 +33,8 @@ Print Assumptions C04_nodes_in_order.
    predication has that role; the target is the predication the argument refers to
    (EQ/NEQ by label identity), or the first representative of the scope a handle
    constraint (H) or a direct label (HEQ) selects, or it is a MOD/EQ link from a
-   later to the first representative of one scope *)
+   later representative, or from another member of the scope that no /EQ link ties to
+   it (repaired code, F32), to the first representative of one scope *)
 Theorem C04_links_justified : forall m d, dmrs_from_mrs m = COk d ->
   exists ids reps, ep_ids (m_rels m) = Some ids /\ representatives m = Some reps /\
     forall l, In l (d_links d) -> link_justified m ids reps l.
